@@ -2,7 +2,7 @@
 """Validate monitors against breaking patches.
 
   tools/selftest.py <patch> <Cxx> [--tier quick] [--seed N] [--keep]
-  tools/selftest.py --all            (every /verif/mutants/*.patch and /verif/seeded/*/patch.diff, per its meta)
+  tools/selftest.py --all [--only Cxx] [--shard i/n] [--out f.json]   (every /verif/mutants/*.patch and /verif/seeded/*/patch.diff, per its meta)
 
 Copies nothing into /repo: makes a git worktree of /repo's HEAD under
 /tmp/scratch/selftest-repo, applies the patch there, mirrors /verif/harness to
@@ -110,9 +110,16 @@ def main():
                 items.append((os.path.join(d, "patch.diff"), m["property"]))
         only = None
         if "--only" in a: only = a[a.index("--only") + 1].upper()
-        for f, pid in items:
+        shard = (0, 1)
+        if "--shard" in a:
+            i, n = a[a.index("--shard") + 1].split("/"); shard = (int(i), int(n))
+        for k, (f, pid) in enumerate(items):
             if only and pid != only: continue
+            if k % shard[1] != shard[0]: continue
             results.append((f, pid, run_one(f, pid, tier, seed)))
+        if "--out" in a:
+            json.dump([{"patch": os.path.relpath(f, "/verif"), "property": pid, "result": r, "tier": tier, "seed": seed}
+                       for f, pid, r in results], open(a[a.index("--out") + 1], "w"), indent=1)
         print("\nSUMMARY")
         for f, pid, r in results:
             print("  %-8s %s %s" % (r, pid, f))
